@@ -1,6 +1,8 @@
 package main
 
 import (
+	"bufio"
+	"encoding/json"
 	"flag"
 	"fmt"
 	"math/rand"
@@ -102,4 +104,64 @@ func cmdHelpers(args []string) {
 		rep["chi_square"] = helpers.ChiAll(rng, *chi)
 	}
 	emit("REPORT", rep)
+}
+
+// cmdPullReplay replays the behaviours TLC exported from Pull.tla (the combinators as pull machines)
+// on the real combinators: same script, same parameters, same context pattern, call by call. The
+// model is deterministic, so the code must answer every call exactly like it (results and the number
+// of source items taken). A difference is reported as model drift.
+func cmdPullReplay(args []string) {
+	f, err := os.Open(args[0])
+	if err != nil {
+		fmt.Println(err)
+		os.Exit(2)
+	}
+	defer f.Close()
+	combs := map[string]comb.Comb{}
+	for _, c := range comb.Combs() {
+		combs[c.Name] = c
+	}
+	sc := bufio.NewScanner(f)
+	sc.Buffer(make([]byte, 1<<20), 1<<24)
+	n, diffs := 0, 0
+	var first string
+	for sc.Scan() {
+		var r struct {
+			Comb   string      `json:"comb"`
+			N      int         `json:"n"`
+			Pred   []int       `json:"pred"`
+			Key    []int       `json:"key"`
+			Script [][][]int   `json:"script"`
+			Calls  []comb.Call `json:"calls"`
+		}
+		if err := json.Unmarshal(sc.Bytes(), &r); err != nil {
+			fmt.Println("bad record:", err)
+			os.Exit(2)
+		}
+		c, ok := combs[r.Comb]
+		if !ok {
+			continue
+		}
+		script := make([][]comb.Step, len(r.Script))
+		for i, s := range r.Script {
+			for _, st := range s {
+				script[i] = append(script[i], comb.Step{Kind: st[0], Val: st[1]})
+			}
+		}
+		exp := make([]bool, len(r.Calls))
+		for i, cl := range r.Calls {
+			exp[i] = cl.Ctx == 1
+		}
+		got := comb.ReplayExact(c, comb.Params{N: r.N, Pred: r.Pred, Key: r.Key}, script, exp)
+		n++
+		a, _ := json.Marshal(r.Calls)
+		b, _ := json.Marshal(got.Calls)
+		if string(a) != string(b) || got.Panic != "" {
+			diffs++
+			if first == "" {
+				first = fmt.Sprintf("%s n=%d script=%v: model %s, code %s %s", r.Comb, r.N, r.Script, a, b, got.Panic)
+			}
+		}
+	}
+	emit("REPORT", map[string]any{"engine": "pullreplay", "behaviours": n, "differences": diffs, "first_difference": first})
 }
